@@ -81,6 +81,7 @@ let run_case ~(checked : bool) ~(ffr : bool) (nslots : int) (slot : int) (blk : 
     match words op with
     | [] -> ()
     | cmd :: args ->
+      dev := Mgr.reset_rh !dev;
       let before = !dev in
       let w0 = wops () in
       let passive = List.mem cmd ["crash"; "fail"; "reboot"; "raw"; "drop"; "hdrs"; "dump"; "dumpbl"] in
@@ -204,7 +205,7 @@ let run_case ~(checked : bool) ~(ffr : bool) (nslots : int) (slot : int) (blk : 
       let lg = fmt_ops blk shown in
       let nops = int_of_n (!dev).Mgr.dops - int_of_n before.Mgr.dops in
       let tok = if lg = "" then tok else tok ^ "[" ^ lg ^ "]" in
-      out := (if nops <> 0 && not passive && not !dead then tok ^ "#" ^ string_of_int nops else tok) :: !out) ops;
+      out := (if nops <> 0 && not passive && not !dead then tok ^ "#" ^ string_of_int nops ^ "/" ^ hex_of_n (!dev).Mgr.drh else tok) :: !out) ops;
   String.concat " ; " (List.rev !out)
 
 let run args =
